@@ -138,8 +138,10 @@ def translate(repo=None):
         argv_is_cmd_plus_filename=ex_src.count('Popen(cmd+[filename],') == ex_src.count('Popen(') >= 1,
         unchecked_shortcut=''.join(ast.unparse(first).split()) ==
         "ifoptions.args().unchecked:returnRunInfo(0,'unchecked','unchecked',0)",
-        timeout_record="exceptsubprocess.TimeoutExpired:proc.kill()" in ex_src
-        and "returnRunInfo(proc.returncode,None,None,timeout)" in ex_src,
+        # the handler must be exactly: kill; log; return the (None, None, None) record -- proc.returncode is
+        # None there only because the child has not been waited for
+        timeout_record=("exceptsubprocess.TimeoutExpired:proc.kill()logging.debug(f'[!!]timeout:terminatedafter{timeout:.2f}seconds')"
+                        "returnRunInfo(proc.returncode,None,None,timeout)") in ex_src,
         kill_on_timeout='proc.kill()' in ex_src,
         communicate_timeout='proc.communicate(timeout=timeout)' in ex_src,
         normal_record='returnRunInfo(proc.returncode,out.decode(),err.decode(),runtime)' in ex_src,
